@@ -79,11 +79,14 @@ pub struct ClientSpec {
     pub default: Reaction,
     /// acknowledge policy per delivery on acking channels: "now" | "never" | "later:<n deliveries>" | "twice"
     pub ack: String,
+    /// acknowledge policy per message key (overrides `ack`)
+    #[serde(default)]
+    pub ack_by_key: BTreeMap<String, String>,
 }
 
 impl Default for ClientSpec {
     fn default() -> Self {
-        ClientSpec { mode: "sequential".into(), order: "fifo".into(), reactions: BTreeMap::new(), default: Reaction::complete(), ack: "never".into() }
+        ClientSpec { mode: "sequential".into(), order: "fifo".into(), reactions: BTreeMap::new(), default: Reaction::complete(), ack: "never".into(), ack_by_key: BTreeMap::new() }
     }
 }
 
